@@ -32,11 +32,20 @@ Proof.
       intros H; injection H as _ <- _; auto.
 Qed.
 
+Lemma answers_shut q s p : answers q (shut_ev s p) = [].
+Proof.
+  unfold shut_ev. destruct (ps s p) as [[]|]; auto. destruct (task_closed s k); auto.
+Qed.
+
+Lemma answers_cons_shut q e s p : answers q (e :: shut_ev s p) = answers q [e].
+Proof. change (e :: shut_ev s p) with ([e] ++ shut_ev s p). unfold answers. rewrite filter_app. fold (answers q (shut_ev s p)). rewrite answers_shut. apply app_nil_r. Qed.
+
 Ltac ans_close :=
   let q := fresh "q" in intros q;
   try match goal with
-      | H0 : ?ev = [] \/ (exists t, _ /\ ?ev = [UClosed _]) |- _ => destruct H0 as [->|(? & ? & ->)]
+      | H0 : ?ev = [] \/ (exists t, _ /\ ?ev = [UClosedT _ _]) |- _ => destruct H0 as [->|(? & ? & ->)]
       end;
+  rewrite ?answers_cons_shut;
   unfold answers; cbn [filter is_answer];
   repeat match goal with |- context [if ?b then _ else _] => destruct b end; cbn; lia.
 
@@ -46,7 +55,21 @@ Proof.
   intros M. destruct o; unfold_handlers M.
   all: try (split_all; ans_close; fail).
   match type of M with context [finish_tasks ?a ?b] => destruct (finish_tasks a b) as [[l' e'] n'] eqn:F end.
-  split_all. intros q. rewrite (finish_tasks_noans _ _ q _ _ _ F). cbn. lia.
+  split_all. intros q. unfold answers. rewrite filter_app. fold (answers q e'). rewrite (finish_tasks_noans _ _ q _ _ _ F).
+  destruct (n' =? 0); cbn; [lia|]. fold (answers q (shut_ev (set_tasks s l') p)). rewrite answers_shut. cbn. lia.
+Qed.
+
+(* the Closed reports are no answers: what the user is handed has the same answers as what was emitted *)
+Lemma answers_delivered q ev : forall s, answers q (delivered s ev) = answers q ev.
+Proof.
+  induction ev as [|e t IH]; intros s; cbn [delivered]; auto.
+  destruct e; cbn [closed_report]; unfold answers in *; cbn [filter is_answer].
+  - apply IH.
+  - rewrite IH. reflexivity.
+  - destruct (current s p None); cbn [filter is_answer]; apply IH.
+  - rewrite IH. reflexivity.
+  - apply IH.
+  - destruct (current s p (Some k)); cbn [filter is_answer]; apply IH.
 Qed.
 
 (* what the protocol still expects from its environment for the outbound half of peer p *)
@@ -81,17 +104,9 @@ Qed.
 
 Lemma drain_hval_mono ev : forall s s' dr ks p, drain s ev = (s', dr, ks) -> hval s p = true -> hval s' p = true.
 Proof.
-  induction ev as [|e t IH]; intros s s' dr ks p; cbn.
-  - intros H; injection H as <- _ _. auto.
-  - destruct e.
-    + destruct (hval s p0) eqn:HV.
-      * destruct (drain s t) as [[a b] c0] eqn:E. intros H; injection H as <- _ _. eapply IH; eauto.
-      * intros H A. eapply (IH _ _ _ _ _ H). setters. unfold upd. destruct (p =? p0); auto.
-    + intros H A. eapply (IH _ _ _ _ _ H). exact A.
-    + destruct (drain (set_hsink (set_hopen s p0 false) p0 None) t) as [[a b] c0] eqn:E. intros H; injection H as <- _ _.
-      intros A. eapply (IH _ _ _ _ _ E). exact A.
-    + intros H. eapply IH; eauto.
-    + intros H. eapply IH; eauto.
+  intros s s' dr ks p D. revert s s' dr ks D.
+  apply (drain_rel (fun s s' => hval s p = true -> hval s' p = true)); intros; setters; auto.
+  unfold upd. destruct (p =? p0); auto.
 Qed.
 
 Lemma drain_sets ev : forall s s' dr ks p, drain s ev = (s', dr, ks) -> has_validate p ev = true -> hval s' p = true.
@@ -107,9 +122,12 @@ Proof.
       * destruct (drain s t) as [[a b] c0] eqn:D. intros H; injection H as <- _ _. eapply IH; eauto.
       * intros H. eapply (IH _ _ _ _ _ H).
   - intros H. eapply (IH _ _ _ _ _ H).
-  - destruct (drain (set_hsink (set_hopen s p0 false) p0 None) t) as [[a b] c0] eqn:D. intros H; injection H as <- _ _. eapply (IH _ _ _ _ _ D).
+  - destruct (current s p0 None); [|intros H; eapply IH; eauto].
+    destruct (drain (set_hsink (set_hopen s p0 false) p0 None) t) as [[a b] c0] eqn:D. intros H; injection H as <- _ _. eapply (IH _ _ _ _ _ D).
   - intros H. eapply IH; eauto.
   - intros H. eapply IH; eauto.
+  - destruct (current s p0 (Some k)); [|intros H; eapply IH; eauto].
+    destruct (drain (set_hsink (set_hopen s p0 false) p0 None) t) as [[a b] c0] eqn:D. intros H; injection H as <- _ _. eapply (IH _ _ _ _ _ D).
 Qed.
 
 Lemma task_dies_ledger s k s' ev :
@@ -125,6 +143,7 @@ Proof.
     + intros q. now rewrite inprog_on_shutdown.
     + intros B. apply B3_on_shutdown. exact B.
     + intros L q V. apply val_on_shutdown in V. rewrite hval_on_shutdown. apply L, V.
+    + intros q. rewrite answers_cons_shut. reflexivity.
 Qed.
 
 Lemma kill_tasks_ledger ks : forall s s' ev,
@@ -151,6 +170,18 @@ Qed.
 
 Lemma has_answer_app q a b : has_answer q (a ++ b) = has_answer q a || has_answer q b.
 Proof. apply existsb_app. Qed.
+
+Lemma has_answer_delivered q ev : forall s, has_answer q (delivered s ev) = has_answer q ev.
+Proof.
+  induction ev as [|e t IH]; intros s; cbn [delivered]; auto.
+  destruct e; cbn [closed_report]; unfold has_answer in *; cbn [existsb is_answer].
+  - apply IH.
+  - rewrite IH. reflexivity.
+  - destruct (current s p None); cbn [existsb is_answer]; apply IH.
+  - rewrite IH. reflexivity.
+  - apply IH.
+  - destruct (current s p (Some k)); cbn [existsb is_answer]; apply IH.
+Qed.
 
 Lemma has_answer_notifs q l : has_answer q (map UNotif l) = false.
 Proof. induction l; cbn; auto. Qed.
@@ -222,8 +253,8 @@ Proof.
   pose proof (drain_tasks _ _ _ _ _ D5) as (P5 & _). pose proof (drain_net _ _ _ _ _ D5) as (_ & _ & _ & _ & Pe5 & S5 & _).
   destruct (kill_tasks_ledger _ _ _ _ K) as (KI & KB & KL & KA).
   assert (IP : forall q, in_progress (ps s5 q) = in_progress (ps s1 q)) by (intros q; rewrite P5, KI, P2; reflexivity).
-  assert (HA : forall q, has_answer q (ev1 ++ map UNotif (filter (hopen s2) (notifs_of s o)) ++ ev4) = has_answer q ev1).
-  { intros q. rewrite !has_answer_app, has_answer_notifs, (answers_nil_has _ _ (KA q)). now rewrite !orb_false_r. }
+  assert (HA : forall q, has_answer q (delivered s1 ev1 ++ map UNotif (filter (hopen s2) (notifs_of s o)) ++ delivered s4 ev4) = has_answer q ev1).
+  { intros q. rewrite !has_answer_app, has_answer_notifs, !has_answer_delivered, (answers_nil_has _ _ (KA q)). now rewrite !orb_false_r. }
   constructor.
   - intros p. unfold owed_next. rewrite HA, IP.
     destruct (has_answer p ev1) eqn:A1; [discriminate|].
@@ -250,7 +281,8 @@ Proof.
   destruct (kill_tasks s2 ks) as [s4 ev4] eqn:K.
   destruct (drain s4 ev4) as [[s5 x] y]. intros E; injection E as _ <- _. intros q.
   destruct (kill_tasks_ledger _ _ _ _ K) as (_ & _ & _ & KA).
-  unfold answers in *. rewrite !filter_app, KA, app_nil_r.
+  pose proof (answers_delivered q ev1 s1) as A1. pose proof (answers_delivered q ev4 s4) as A4.
+  unfold answers in *. rewrite !filter_app, A1, A4, KA, app_nil_r.
   assert (N0 : filter (is_answer q) (map UNotif (filter (hopen s2) (notifs_of s o))) = []).
   { induction (filter (hopen s2) (notifs_of s o)); cbn; auto. }
   rewrite N0, app_nil_r. eapply answers_main; eauto.
